@@ -71,6 +71,8 @@ def _nonempty_test(t, base, pol):
                 if isinstance(op, ast.Eq) and (c is not None and c >= 1 or r == "self.k"):
                     return True        # k > 0 is enforced by _KInARow validation (checked below)
             else:
+                if isinstance(op, ast.NotEq) and (c is not None and c >= 1 or r == "self.k"):
+                    return True
                 if isinstance(op, ast.Eq) and c == 0:
                     return True
                 if isinstance(op, ast.Lt) and c is not None and c >= 1:
@@ -294,8 +296,8 @@ def rule_window_bound(ctx):
     # start stays inside because of the loop test
     loops = [s for s in statements(f.node) if isinstance(s, ast.While)]
     ctx.require(len(loops) == 1, "map_block_trial_ranges: window loop not found")
-    t = ast.unparse(loops[0].test)
-    ctx.check(t == "start < num_trials - preamble", R, f, "loop %s" % t, "a window is opened while at least one non-preamble trial of it exists",
+    t = str(F.at(loops[0].body[0], loops[0].test)) if loops[0].body else ast.unparse(loops[0].test)
+    ctx.check(t in ("(start < -preamble + self.trials_per_sample())", "(start < -ite(within_block, within_block.preamble_size, 0) + self.trials_per_sample())"), R, f, "loop %s" % t, "a window is opened while at least one non-preamble trial of it exists",
               "the window loop runs while `%s` (expected `start < num_trials - preamble`: every repetition that has a trial of its own gets a window, and none starts beyond the sequence)" % t, loops[0])
     # the callbacks really index by range(start, end)
     n = 0
